@@ -106,7 +106,7 @@ pub fn profile(prop: &str, tier: &str) -> Profile {
                 (K::TrySendRt, 1),
             ]),
             caps: vec![Cap::N(0), Cap::N(1), Cap::N(2)],
-            pays: TAGGED.to_vec(),
+            pays: vec![Pay::P1, Pay::P4, Pay::P8, Pay::P16, Pay::P40, Pay::PR, Pay::PBIG],
             ..base
         },
         "C04" => Profile {
